@@ -38,9 +38,9 @@ def arg_successor(k, t, field, sense):
             return True, kf.text()
         if kf is not None and kf.kind == "EXT":
             return False, "is the %s over all successors of `%s`, not the value at the arg-%s successor of expected_rewards" % (kf.sense, show(kf.term), sense)
-    if ct[0] == "res":
-        # the value itself is carried through the loop
-        kf = k.kfold(ct)
+    if ct[0] == "res" or (t[0] == "attr" and t[1][0] == "res"):
+        # the value itself is carried through the loop, or the successor object is and the field is read afterwards
+        kf = k.kfold(ct if ct[0] == "res" else t)
         if kf is not None and kf.kind == "ARG" and kf.of is not None:
             if kf.term != SF(field):
                 return False, "carries `%s` of the arg successor, specification: %s" % (show(kf.term), field)
@@ -201,6 +201,9 @@ def r2_precision(ctx, chk, rule="C14.2"):
 
 def r3_seeding(ctx, chk, rule="C14.3"):
     f = ctx.func("tad.py::Solver.value_iteration_reachability")
+    if not any(isinstance(x, ast.Attribute) and isinstance(x.ctx, ast.Store) and x.attr == ERM for x in walk_no_nested_defs(f.node)):
+        # the seeding may have been moved into a helper of the solver: judged in the view with such helpers written out
+        f = ctx.prog.pipeline_view(f.qual)
     sx = SymX(ctx, f, "Solver", inline_depth=0).run()
     slist = shared.SLIST(ctx)
     cfg = ctx.cfg(f)
